@@ -414,7 +414,7 @@ func (d *DirectoryOutputHandler) Load(
 
 	// WaitGroup to wait for all goroutines to finish
 	var waitGroup sync.WaitGroup
-	errChan := make(chan error, len(tree.Children))
+	errChan := make(chan error, len(tree.Children)+1)
 	// Recursively load the directory structure
 	if err := d.loadDirectoryRecursive(ctx, dirPath, tree.Root, childrenMap, progress, &waitGroup, errChan); err != nil {
 		return fmt.Errorf("failed to load directory structure: %w", err)
@@ -457,7 +457,13 @@ func (d *DirectoryOutputHandler) loadDirectoryRecursive(
 			console.GetLogger(ctx).Debugf("loading file for directory output %s from digest %s", filePath, digest)
 			err := d.downloadFile(ctx, digest, filePath, fileNode.IsExecutable, progress)
 			if err != nil {
-				errChan <- fmt.Errorf("failed to download file %s: %v", filePath, err)
+				// Never block here: Load only drains errChan after waiting for all
+				// downloads, and there can be more failing files than buffer slots.
+				// Keeping the first errors is enough to fail the restore.
+				select {
+				case errChan <- fmt.Errorf("failed to download file %s: %v", filePath, err):
+				default:
+				}
 			}
 		}(filePath, fileNode.Digest.Hash)
 	}
